@@ -29,14 +29,17 @@ def is_partial(cmd):
         a, b = R(partial=True), R(TSN=1)
         da, db = object.__getattribute__(a, "__dict__"), object.__getattribute__(b, "__dict__")
         if "_partial" in da:
-            _partial_name.append("_partial")
+            _partial_name.append(("_partial", False))
         else:
-            cands = [k for k in da if da[k] is True and db.get(k) is False]
+            cands = [(k, False) for k in da if da[k] is True and db.get(k) is False] + \
+                    [(k, True) for k in da if da[k] is False and db.get(k) is True]
             if len(cands) != 1:
                 raise RuntimeError("cannot tell which attribute marks a partial command (%s)" % cands)
             _partial_name.append(cands[0])
-            TA.used_behaviour["CommandBase.partial-flag"] = "the one attribute True on a partial command and False on a full one (%s)" % cands[0]
-    return bool(object.__getattribute__(cmd, "__dict__")[_partial_name[0]])
+            TA.used_behaviour["CommandBase.partial-flag"] = ("the one boolean attribute that tells a partial command from a "
+                                                             "full one (%s%s)" % (cands[0][0], ", inverted" if cands[0][1] else ""))
+    name, inverted = _partial_name[0]
+    return bool(object.__getattribute__(cmd, "__dict__")[name]) != inverted
 
 
 def ty_text(c):
